@@ -7,7 +7,8 @@ HERE = os.path.dirname(os.path.abspath(__file__))
 TECH = "bounded model checking of the compiled Rust code: Kani 0.68 / CBMC 6.11 (CaDiCaL) over #[kani::proof] harnesses with kani::any() inputs"
 TECH_MIR = TECH + "; plus path-exploring symbolic execution of the rustc MIR of the real functions with z3 (mirsym)"
 MIR_ONLY = "path-exploring symbolic execution of the rustc MIR of the real functions (cargo +nightly rustc -Zunpretty=mir) with z3 deciding branch feasibility and the per-path obligations (mirsym)"
-MIRSYM = ("C01", "C11", "C04", "C19", "C18", "C02", "C08", "C09")
+MIRSYM = ("C01", "C11", "C04", "C19", "C18", "C02", "C08", "C09", "C05", "C12", "C20")
+MIR_ONLY_PROPS = ("C08", "C09")
 
 CLAIMS = {
  "C01": ("End-to-end (mirsym): tokens -> tree -> evaluation equals the grammar's reference evaluation (precedence, '!', -a/juxtaposition, -o, ',', parentheses, short-circuit, implicit -print, -quit) for all token sequences within the bound. Inductive step (Kani) for arbitrary children: And/Or/List/Not nodes (order, short-circuit, ',' value, quit cut-off, action flag, finished callbacks), the And-builder (1-3 leaves), the is-an-action table, the implicit -print decision of build_top_level_matcher, -quit in the walk loop and across starting points.",
@@ -61,12 +62,14 @@ CLAIMS = {
  "C19": ("Classification of a child's fate by execute() for every wait status / spawn errno; exit-code mapping of xargs_main for every result variant; sticky failure; and, in the process_input protocol harness, every sequence of <=5 outcomes: stops at once on 255/signal/not-found, continues past 1..125.",
          "Command::status replaced by a symbolic outcome under the Linux wait-status encoding; do_xargs replaced by a stub in the mapping harness.",
          "4 C19"),
+ "C20": ("mirsym: (1) normalize_options from its MIR for every subset and relative order of -n/-L/-I|-i/-d/-0: the option given last determines the mode, -I with -n 1 stays -I, -I forces one line per run and newline splitting, -0/-d: the later one. (2) CommandBuilder::execute from its MIR: with -I every occurrence of R in every initial argument is replaced by the whole line, nothing appended, arguments without R unchanged; without -I initial arguments then the line; the child's fate is classified per C19. (3) The -I pipeline process_input + CommandBuilderOptions::new + CommandBuilder::{new,add_arg,execute} + the -n 1 limiter: one run per line in order, none on empty input (with or without -r), 255 stops at once, 1..254 goes on. Kani: the process_input protocol harness (shared with C04/C19) covers the batching loop for every verdict/outcome script of <= 5 steps.",
+         "Strings are drawn from small vocabularies (R in 3, initial arguments in 7, lines in 3..5) - str::replace is modelled on concrete text after pinning the choice; clap's ArgMatches::indices_of is modelled (values have indices; a valueless occurrence has one only through a default_missing_value, read from do_xargs's MIR); the readers feeding the pipeline are C05's; Command is a recorder. Not covered: the clap definitions of the options themselves (spelling, require_equals), lines with quotes/backslashes/leading blanks (outside the property too).",
+         "4 C20"),
 }
 
 NOT_APPLICABLE = {
  "C07": "Both end points exhaust memory at two symbolic path bytes: Printer::print goes through fmt::write (formatting is the subject, so it cannot be cut) and the -0 reader through BufReader::read_until; the path in between is walkdir's. Nothing decidable remains (DESIGN.md C07).",
  "C17": "RegexMatcher is a 3-line wrapper over oniguruma (C): language membership, whole-string vs first-match and syntax tables are foreign code outside any bound CBMC finishes.",
- "C20": "Option precedence lives in normalize_options on clap::ArgMatches (not constructible); the textual replacement is str::replace (std's Two-Way searcher on symbolic strings, same cost class as the probes that did not finish). 'One run per line / empty input' is process_input with -n 1, which C04's protocol harness covers, but the property's core is not reachable.",
 }
 
 
@@ -80,12 +83,13 @@ def main():
             "thorough_cmd": "./check.py %s --tier thorough" % pid,
             "evidence_file": "evidence/%s.json" % pid,
             "replay_cmd_template": "./check.py --replay {path}",
-            "engine": "mirsym" if pid in ("C08", "C09") else "kani+mirsym" if pid in MIRSYM else "kani",
+            "engine": "mirsym" if pid in MIR_ONLY_PROPS else "kani+mirsym" if pid in MIRSYM else "kani",
             "level_claimed": {"category": "model_checking",
                               "text": text + " Bounded: holds for all inputs within the bounds printed per query in the evidence file; nothing is called a proof.",
                               "design_ref": "DESIGN.md section " + ref},
-            "level_note": note + " Trusted: Kani's MIR->goto translation and std models, CBMC + CaDiCaL, the listed #[kani::stub] cuts, the reference models in /verif/harness.",
-            "technique": MIR_ONLY if pid in ("C08", "C09") else TECH_MIR if pid in MIRSYM else TECH,
+            "level_note": note + (" Trusted: rustc's MIR dump, the interpreter and its std/external models (mirsym/), z3, the reference models in /verif/mirsym." if pid in MIR_ONLY_PROPS else
+                                  " Trusted: Kani's MIR->goto translation and std models, CBMC + CaDiCaL, the listed #[kani::stub] cuts, the reference models in /verif/harness."),
+            "technique": MIR_ONLY if pid in MIR_ONLY_PROPS else TECH_MIR if pid in MIRSYM else TECH,
         })
     hooks_commits = subprocess.run(["git", "-C", "/repo", "log", "--format=%h", "--grep=^verif hooks"], capture_output=True, text=True).stdout.split()
     m = {
@@ -98,10 +102,10 @@ def main():
             "source_commits": hooks_commits,
             "add_only": True,
         },
-        "engines": [{"name": "kani", "path": "check.py", "serves_properties": sorted(CLAIMS),
+        "engines": [{"name": "kani", "path": "check.py", "serves_properties": sorted(set(CLAIMS) - set(MIR_ONLY_PROPS)),
                      "kind_free_text": "Kani 0.68.0 / CBMC 6.11.0 bounded model checker over in-crate #[kani::proof] harnesses (harness/*.rs), driven by check.py"},
-                    {"name": "mirsym", "path": "mirsym/run.py", "serves_properties": ["C01", "C02", "C04", "C08", "C09", "C11", "C18", "C19"],
-                     "kind_free_text": "own symbolic interpreter for rustc's MIR dump (cargo +nightly rustc -Zunpretty=mir, regenerated from /repo on every run): executes the real parser/builders/combinators, parse_args/do_find, CommandBuilderOptions::new/process_input with the real limiter chain, process_dir with the -exec matchers; z3 decides branch feasibility and discharges the per-path obligations; std/external calls are modelled (mirsym/models.py, natives_fs.py)"}],
+                    {"name": "mirsym", "path": "mirsym/run.py", "serves_properties": sorted(MIRSYM),
+                     "kind_free_text": "own symbolic interpreter for rustc's MIR dump (cargo +nightly rustc -Zunpretty=mir, regenerated from /repo on every run): executes the real parser/builders/combinators, parse_args/do_find, CommandBuilderOptions::new/process_input with the real limiter chain, process_dir with the -exec matchers, the xargs readers, glob_to_regex, normalize_options and CommandBuilder::execute; z3 decides branch feasibility and discharges the per-path obligations; std/external calls are modelled (mirsym/models.py, natives_fs.py)"}],
         "checks": checks,
         "not_applicable": [{"property_id": k, "reason": v} for k, v in sorted(NOT_APPLICABLE.items())],
         "notes": "Solver-based checking only. Exit 0 = verified (KNOWN-FINDING lines for recorded defects), 1 = VIOLATION, 2 = INCONCLUSIVE (timeout/OOM/vacuity guard). known_findings.json lists recorded and fixed defects; seeded/ holds confirmed breaking changes used to test the checks.",
